@@ -40,6 +40,9 @@ CONFIGS = [
     # progressive redaction: a second elision on what the first one left (nodes with already hidden parts)
     cfg("reelide_q", [["build"], ["elide", "compress", "encrypt"], ["elide", "compress", "encrypt"]], nreg=1, maxsize=12, maxt=3,
         shapes="{e \\in ShUpTo(%s, 5) : IsNode(e)} \\cup NodeSubjectNodes(%s, 9) \\cup Decorated(%s) \\cup Nodes2(%s)" % (B2, B1, B1, B1)),
+    # un-eliding with every pair of registers (a receiver that is not a bare placeholder; digests that differ)
+    cfg("unelide_q", [["build"], ["build", "elideone"], ["elide"], ["elide"]], nreg=2, maxsize=9, maxt=1,
+        shapes="ShUpTo(%s, 3) \\cup {e \\in Sh(%s, 5) : IsNode(e)}" % (B2, B1)),
     # symmetric encryption with a key-holding adversary (C08)
     cfg("encrypt_q", [["build"], ["build", "encrypt", "elideset"], ["forge", "tamper", "addassertion", "encrypt"], ["decrypt"]],
         keys=("k1", "k2"), maxsize=9, maxt=1, inv=("WellFormedInv", "C08Laws"), props=("C02Prop", "C08Prop", "C07Prop"), shapes="ShUpTo(%s, 3) \\cup {e \\in Sh(%s, 5) : IsNode(e)} \\cup NodeSubjectNodes({Leaf(V(\"a1\"))}, 9) \\cup Decorated({Leaf(V(\"a1\"))})" % (B2, B1)),
@@ -91,7 +94,7 @@ CONFIGS = [
         atoms=("a1",), nreg=1, maxsize=40, maxt=1, inv=("WellFormedInv",), props=("C09Prop",),
         shapes="ShUpTo(%s, 2) \\cup {e \\in Sh(%s, 5) : IsNode(e)} \\cup NodeSubjectNodes(%s, 9)" % (B1, B1, B1)),
     # recipients and seal (C10)
-    cfg("recipient_q", [["build"], ["recipient_enc"], ["recipient_add", "addassertion", "recipient_dec", "decorate"], ["recipient_dec"]],
+    cfg("recipient_q", [["build"], ["recipient_enc"], ["recipient_add", "addassertion", "recipient_dec", "decorate", "elideset"], ["recipient_dec"]],
         atoms=("a1",), nreg=1, maxsize=30, maxt=1, inv=("WellFormedInv",), props=("C10Prop",),
         shapes="ShUpTo(%s, 3) \\cup {e \\in Sh(%s, 5) : IsNode(e)} \\cup NodeSubjectNodes({Leaf(V(\"a1\"))}, 9) \\cup Decorated({Leaf(V(\"a1\"))})" % (B1, B1)),
     cfg("recipient_t", [["build"], ["recipient_enc"], ["recipient_add", "addassertion", "recipient_dec", "decorate", "elideset"],
